@@ -598,6 +598,9 @@ fn mismatch(s: &Sched, got: &Result<Answer, String>) -> String {
     format!("(batch-mismatch {} (got {got}))", s.to_sexp())
 }
 
+const HEAVY_ROWS: usize = 1500;
+const HEAVY_SCHEDULES: usize = 4;
+
 thread_local! {
     /// (query, schedule) executions of this process
     static BATCHED_RUNS: Cell<u64> = const { Cell::new(0) };
@@ -618,7 +621,12 @@ fn eval_batch_exec(args: &[Sexp]) -> Option<String> {
     }
     let table = Rc::new(p.adapter());
     let base = outcome(|| execute(Arc::new(p.adapter()), q.clone(), &r.args));
-    for s in &scheds {
+    // a result of thousands of rows (nested recursions over a dense self-edge) is run under the first
+    // few schedules only; the cut depends on the unbatched result alone, so the answer stays a
+    // function of the request
+    let heavy = matches!(&base, Ok(Answer::Rows(rows)) if rows.len() > HEAVY_ROWS);
+    let scheds = if heavy { &scheds[..scheds.len().min(HEAVY_SCHEDULES)] } else { &scheds[..] };
+    for s in scheds {
         BATCHED_RUNS.with(|c| c.set(c.get() + 1));
         let got = outcome(|| execute(Arc::new(BatchingAdapter::new(table.clone(), s.clone())), q.clone(), &r.args));
         let same = match (&base, &got) {
